@@ -91,6 +91,8 @@ def parse_type(s: str) -> Ty:
             return Ty('ref', cls=cls, nullable=(name == 'optref'))
         if name in ('seq', 'list'):
             return Ty('seq', elem=args()[0], skind='list')
+        if name == 'optlist':
+            return Ty('seq', elem=args()[0], skind='list', nullable=True)
         if name == 'tupleseq':
             return Ty('seq', elem=args()[0], skind='tuple')
         if name == 'set':
@@ -181,11 +183,12 @@ _oid = itertools.count(1)
 
 class VSeq(V):
     """Array-backed sequence: n is an Int leaf, elem is the element tree lifted by one index dimension."""
-    def __init__(self, n, elem, skind='list', oid=None):
+    def __init__(self, n, elem, skind='list', oid=None, nullable=False):
         self.n = n if z3.is_expr(n) else z3.IntVal(n)
         self.elem = elem
         self.skind = skind
         self.oid = oid if oid is not None else next(_oid)
+        self.nullable = nullable        # None is encoded as n == -1
 
     def __repr__(self):
         return f"VSeq(n={self.n},{self.skind})"
@@ -245,7 +248,8 @@ def fresh(ty: Ty, name: str, dims: int = 0) -> V:
     if k == 'rec':
         return VRec(ty.cls, {f: fresh(t, f"{name}.{f}", dims) for f, t in REC_FIELDS[ty.cls]})
     if k == 'seq':
-        return VSeq(z3.Const(name + '#n', _arr_sort(I, dims)), fresh(ty.elem, name + '[]', dims + 1), ty.skind)
+        return VSeq(z3.Const(name + '#n', _arr_sort(I, dims)), fresh(ty.elem, name + '[]', dims + 1), ty.skind,
+                    nullable=getattr(ty, 'nullable', False))
     if k == 'none':
         return VNone()
     if k == 'opaque':
@@ -267,7 +271,7 @@ def type_of(v: V) -> Ty:
     if isinstance(v, VRec):
         return Ty('rec', cls=v.cls)
     if isinstance(v, VSeq):
-        return Ty('seq', elem=type_of(v.elem), skind=v.skind)
+        return Ty('seq', elem=type_of(v.elem), skind=v.skind, nullable=v.nullable)
     if isinstance(v, VView):
         if v.elem_ty is not None:
             return Ty('seq', elem=v.elem_ty, skind=v.skind)
@@ -294,7 +298,7 @@ def sel(tree: V, i) -> V:
     if isinstance(tree, VRec):
         return VRec(tree.cls, {f: sel(t, i) for f, t in tree.fields.items()})
     if isinstance(tree, VSeq):
-        return VSeq(z3.Select(tree.n, i), sel(tree.elem, i), tree.skind)
+        return VSeq(z3.Select(tree.n, i), sel(tree.elem, i), tree.skind, nullable=tree.nullable)
     if isinstance(tree, (VNone, VOpaque)):
         return tree
     raise Unsupported(f"sel on {tree!r}")
@@ -351,9 +355,13 @@ def sto(tree: V, i, v: V) -> V:
     if isinstance(tree, VRec):
         return VRec(tree.cls, {f: sto(t, i, v.fields[f]) for f, t in tree.fields.items()})
     if isinstance(tree, VSeq):
+        if isinstance(v, VNone):
+            if not tree.nullable:
+                raise Unsupported("None stored into a sequence slot not declared optional (optlist[...])")
+            return VSeq(z3.Store(tree.n, i, z3.IntVal(-1)), tree.elem, tree.skind, nullable=True)
         if not isinstance(v, VSeq):
             raise Unsupported(f"store of non-materialised sequence {v!r}")
-        return VSeq(z3.Store(tree.n, i, v.n), sto_tree(tree.elem, i, v.elem), tree.skind)
+        return VSeq(z3.Store(tree.n, i, v.n), sto_tree(tree.elem, i, v.elem), tree.skind, nullable=tree.nullable)
     if isinstance(tree, (VNone, VOpaque)):
         return tree
     raise Unsupported(f"sto on {tree!r}")
@@ -374,7 +382,7 @@ def sto_tree(tree: V, i, sub: V) -> V:
     if isinstance(tree, VRec):
         return VRec(tree.cls, {f: sto_tree(t, i, sub.fields[f]) for f, t in tree.fields.items()})
     if isinstance(tree, VSeq):
-        return VSeq(z3.Store(tree.n, i, sub.n), sto_tree(tree.elem, i, sub.elem), tree.skind)
+        return VSeq(z3.Store(tree.n, i, sub.n), sto_tree(tree.elem, i, sub.elem), tree.skind, nullable=tree.nullable)
     if isinstance(tree, (VNone, VOpaque)):
         return tree
     raise Unsupported(f"sto_tree on {tree!r}")
@@ -431,7 +439,7 @@ def seq_get(s, i) -> V:
 
 
 def seq_set(s: VSeq, i, v: V) -> VSeq:
-    return VSeq(s.n, sto(s.elem, i, v), s.skind, s.oid)
+    return VSeq(s.n, sto(s.elem, i, v), s.skind, s.oid, nullable=s.nullable)
 
 
 def seq_append(s: VSeq, v: V) -> VSeq:
